@@ -90,12 +90,36 @@ func generate(w *mon.W) {
 				do(join(t)) // transpose
 			}
 		}
+		// every word respelled as a string and as a quoted name, every string
+		// and quoted name respelled bare (a keyword is a keyword only bare)
+		for i, part := range parts {
+			alt := func(x string) {
+				t := append([]string{}, parts...)
+				t[i] = x
+				do(join(t))
+			}
+			switch c := part[0]; {
+			case c == '\'' || c == '"' || c == '`':
+				if len(part) > 2 {
+					alt(part[1 : len(part)-1])
+				}
+			case c >= 'a' && c <= 'z' || c >= 'A' && c <= 'Z' || c == '_' || c == '$':
+				alt("'" + part + "'")
+				alt("\"" + part + "\"")
+				alt("`" + part + "`")
+			}
+		}
+		// cut at every byte (numbers, strings and operators end mid-token)
+		for i := 1; i < len(src); i++ {
+			do(src[:i])
+		}
 		// insertion of every vocabulary token at every position (exhaustive
 		// for the generated part of the corpus; sampled for the hand corpus in quick)
 		if ci < nprog || !w.Quick() {
 			for i := 0; i <= len(parts); i++ {
 				for _, v := range gen.Vocab {
 					do(join(append(append(append([]string{}, parts[:i]...), v), parts[i:]...)))
+					do(join(append(append([]string{}, parts[:i]...), v))) // the rest replaced by the token
 				}
 			}
 		}
